@@ -41,6 +41,89 @@ def txchannel_sites(bf):
     return out
 
 
+def join_walk_balance(c, res):
+    """Termination of the join-channel walk of the fixed plans (AvailableChannels::get_next_channel_inner re-picks inside one bank until it
+    finds an available channel): the walk takes one channel from each of the nine banks per round, so the bank it wraps to still has a
+    channel as long as every bank has lost the same number. The reviewed argument, decided here clause by clause:
+      (1) channels leave `available_channels.data` only in AvailableChannels::get_next (the channel the walk just returned) and at one site in
+          JoinChannels::get_next_channel (the last biased try, which stands for the preferred bank's pick of the first round);
+      (2) that extra removal happens at most once per cycle: it is guarded by num_retries == max_retries, num_retries only ever grows by one per
+          call and is set back only by reset(), which also restores the channel set;
+      (3) it records the same channel as `previous`, so the walk continues from the next bank."""
+    JC = 'region::fixed_channel_plans::join_channels::'
+    prog = c.prog
+    removers = []
+    for p, bl in prog.by_short.items():
+        if not p.startswith(D) or 'promoted' in p:
+            continue
+        for body in bl:
+            bf_ = c.pf.bf(body)
+            for bb, t in bf_.calls():
+                if callee_name(t).endswith('ChannelMask::set_channel') and len(t.args) == 3:
+                    tgt = term_str(term_of_operand(bf_, t.args[0]))
+                    if 'available_channels.data' in tgt or (body.path.endswith('AvailableChannels::get_next') and tgt.endswith('.data')) or 'AvailableChannels' in body.path:
+                        removers.append((bf_, bb, t))
+    names = sorted(rules.short_fn(bf_.body.path) for bf_, bb, t in removers)
+    res.require(names == sorted(['AvailableChannels::get_next', 'JoinChannels::get_next_channel']), 'C09:join-walk:removers',
+                'channels are taken out of the join walk\'s channel set at %s (reviewed: once in AvailableChannels::get_next, once in JoinChannels::get_next_channel): the banks no longer lose channels evenly and the '
+                're-pick loop of get_next_channel_inner can spin on an empty bank' % names, D + JC + 'JoinChannels::get_next_channel', 'WHO-WRITES(available join channels)',
+                instance='join walk: channels removed in AvailableChannels::get_next and once in JoinChannels::get_next_channel')
+    for bf_, bb, t in removers:
+        fn = rules.short_fn(bf_.body.path)
+        ch = peel(term_of_operand(bf_, t.args[1]))
+        if fn.endswith('AvailableChannels::get_next'):
+            res.require(has_call(ch, 'get_next_channel_inner') and term_of_operand(bf_, t.args[2]) == ('const', 0), 'C09:join-walk:get_next:removes-returned-channel',
+                        'AvailableChannels::get_next does not disable exactly the channel the walk returned: %s' % term_str(ch)[:80], short_site(bf_, bb), 'SAME-VALUE(channel returned = channel disabled)',
+                        instance='join walk: get_next disables the channel it returns')
+            continue
+        conds = path_conditions(bf_, bb)
+        nr = [w for w in c.pf.writers_of_field('JoinChannels', 'num_retries', crates={'lorawan_device'}) if w[4] == 'store']
+        kinds = []
+        for w in nr:
+            v = term_of_operand(c.pf.bf(w[0]), w[3].rv.ops[0]) if w[3].rv.k == 'use' else None
+            lin, k = rules.linear(v) if v is not None else ({}, None)
+            if v == ('const', 0) and w[0].path.endswith('JoinChannels::reset'):
+                kinds.append('reset')
+            elif k == 1 and len(lin) == 1 and list(lin.values()) == [1] and 'num_retries' in term_str(list(lin)[0]) and w[0].path.endswith('JoinChannels::get_next_channel'):
+                kinds.append('inc')
+            else:
+                kinds.append('other:%s in %s' % (term_str(v)[:40] if v is not None else w[3].rv.k, rules.short_fn(w[0].path)))
+        mono = bool(kinds) and all(k in ('reset', 'inc') for k in kinds) and 'inc' in kinds
+        # the guard: the (already incremented) retry count equals the maximum
+        a = b = None
+        for cnd in conds:
+            tm = cnd[0]
+            if isinstance(tm, tuple) and len(tm) == 3 and tm[0] in ('Eq', 'Ne', 'Lt', 'Le', 'Gt', 'Ge'):
+                if 'num_retries' in term_str(tm[1]) and 'max_retries' in term_str(tm[2]):
+                    a, b = tm[1], tm[2]
+                elif 'num_retries' in term_str(tm[2]) and 'max_retries' in term_str(tm[1]):
+                    a, b = tm[2], tm[1]
+        once = a is not None and rules.implies_order(conds, '==', a, b)
+        res.require(once and mono, 'C09:join-walk:extra-removal-once',
+                    'the biased join try takes its channel out of the walk\'s channel set under %s (retry counter writers: %s): unless this happens exactly when the retry count reaches the maximum (once per cycle), the preferred '
+                    'bank loses more channels than the others and channel selection stops terminating when the walk wraps to it' % ([term_str(x[0])[:50] for x in conds if 'retries' in term_str(x[0])], kinds),
+                    short_site(bf_, bb), 'EXACT-GUARD(extra removal <=> num_retries == max_retries) + MONOTONE(num_retries)', instance='join walk: the biased try leaves the channel set exactly once (num_retries == max_retries)')
+        prev = [w for w in c.pf.writers_of_field('AvailableChannels', 'previous', crates={'lorawan_device'}) if w[4] == 'store' and w[0].path == bf_.body.path]
+        okp = len(prev) == 1 and bf_.cfg.dominates(prev[0][1], bb) or (len(prev) == 1 and bf_.cfg.dominates(bb, prev[0][1]))
+        if okp:
+            pv = term_of_operand(bf_, prev[0][3].rv.ops[0]) if prev[0][3].rv.ops else None
+            # Some(channel): the payload of the option stored
+            if isinstance(pv, tuple) and pv[:1] == ('agg',) and pv[1].endswith('Option::Some') and pv[2]:
+                pv = pv[2][0][1]
+            else:
+                pv = None
+
+            def core(x):
+                x = peel(x)
+                while isinstance(x, tuple) and x[:1] == ('cast',):
+                    x = peel(x[2])
+                return x
+            same_conds = [term_str(x[0]) for x in path_conditions(bf_, prev[0][1])] == [term_str(x[0]) for x in conds]
+            okp = pv is not None and core(pv) == core(ch) and same_conds
+        res.require(okp, 'C09:join-walk:extra-removal-recorded', 'the channel of the last biased try is not recorded as `previous` together with its removal: the walk would not continue from the next bank',
+                    short_site(bf_, bb), 'SAME-VALUE(previous = removed channel)', instance='join walk: the last biased try is recorded as the previous channel')
+
+
 def run(tier):
     res = Result(PID)
     c = ctx('ws')
@@ -427,6 +510,7 @@ def run(tier):
                     instance='%s: tx power table %s' % (short_r, defined))
         cov_tables['%s.tx_power' % short_r] = vals
         cov_tables['%s.datarates' % short_r] = [(d_['spreading_factor'], d_['bandwidth']) if isinstance(d_, dict) else d_ for d_ in tabs[r]['dr']]
+    join_walk_balance(c, res)
     # the parameter sets against the regional parameters document (frozen oracle, lrs/props/regional.py)
     from . import regional
     regional.check(c, res, PID, {'dr', 'power', 'band', 'channels', 'cr'})
